@@ -132,3 +132,32 @@ pub fn age_replication(driver: &mut SwarmDriver, d: std::time::Duration) -> bool
     }
     ok
 }
+
+// ---------------------------------------------------------------------------------------------
+// Quote history and node-issue tracking (C13: `LocalSwarmCmd::QuoteVerification`)
+// ---------------------------------------------------------------------------------------------
+
+/// Read-only copy of `quotes_history`: the quote currently remembered for each peer.
+pub fn quotes_history(driver: &SwarmDriver) -> Vec<(PeerId, ant_evm::PaymentQuote)> {
+    driver
+        .quotes_history
+        .iter()
+        .map(|(p, q)| (*p, q.clone()))
+        .collect()
+}
+
+/// Read-only copy of `bad_nodes`: per peer the tracked issues (Debug names, oldest first) and the
+/// "considered bad" flag.
+pub fn node_issues(driver: &SwarmDriver) -> Vec<(PeerId, Vec<String>, bool)> {
+    driver
+        .bad_nodes
+        .iter()
+        .map(|(p, (issues, is_bad))| {
+            (
+                *p,
+                issues.iter().map(|(i, _)| format!("{i:?}")).collect(),
+                *is_bad,
+            )
+        })
+        .collect()
+}
